@@ -1171,9 +1171,9 @@ sqascii_ReadWindow(ESL_SQFILE *sqfp, int C, int W, ESL_SQ *sq)
     {/* reverse strand */
        if (sq->L == -1) ESL_XEXCEPTION(eslESYNTAX, "Can't read reverse complement until you've read forward strand");
 
-       sq->C     = ESL_MIN(sq->n, sq->end + C - 1);
+       sq->C     = ESL_MIN(sq->n, C);     /* context comes from the previous window (none on the first); as on the forward strand */
        sq->end   = (sq->start == 0 ? sq->L : sq->end + sq->C - 1);
-       sq->start = ESL_MAX(1, sq->end + W - sq->C - 1);
+       sq->start = ESL_MAX(1, sq->end + W - sq->C + 1);  /* W < 0: <C> context + up to |W| new residues, <start>..<end> */
        sq->n     = sq->end - sq->start + 1;
        sq->W     = sq->n - sq->C;
     }
